@@ -173,6 +173,19 @@ def register(R):
   _sp = importlib.util.spec_from_file_location('mux_common', os.path.join(os.path.dirname(__file__), 'mux_common.py'))
   _mux_common = importlib.util.module_from_spec(_sp); _sp.loader.exec_module(_mux_common)
   _mux_common.register(R, [P])          # without error skipping the first error also ends the helper threads
+  # ... and it reaches every consumer: the producer-side failure path of the iterator queue (contracts of C04/C05) is
+  # re-verified under this property
+  _s4 = importlib.util.spec_from_file_location('c04', os.path.join(os.path.dirname(__file__), 'C04.py'))
+  _c04 = importlib.util.module_from_spec(_s4); _s4.loader.exec_module(_c04)
+  _c04.register(R)
+  for p_ in ('C04', 'C05'):
+    R.bounded_checks.pop(p_, None)
+    R.trusted.pop(p_, None)
+  for cs in R.contracts.values():
+    for c_ in cs:
+      if 'C04' in c_.props and c_.short in ('IteratorQueue.enqueue_from_iterator', 'IteratorQueue._stop_enqueue') and P not in c_.props:
+        c_.props.append(P)
+        c_.bounded = 'bounded_pipeline_skip'
   # (_RangeIterator.__next__ is registered by the C09 contracts for both properties)
 
   R.bounded_checks[P] = [
